@@ -147,6 +147,14 @@ func leafSchema(kind string, n int) jx.Obj {
 	case "pattern":
 		return jx.Obj{"type": "string", "pattern": "^planted" + strconv.Itoa(n) + "$"}
 	}
+	switch n % 5 {
+	case 1: // zero values are values
+		return jx.Obj{"type": "integer", "enum": jx.Arr{float64(0)}}
+	case 2:
+		return jx.Obj{"type": "string", "enum": jx.Arr{""}}
+	case 3:
+		return jx.Obj{"enum": jx.Arr{nil, false}}
+	}
 	return jx.Obj{"type": "string", "enum": jx.Arr{"planted" + strconv.Itoa(n), "other"}}
 }
 
@@ -156,6 +164,14 @@ func leafSimple(kind string, n int) jx.Obj {
 		return jx.Obj{"$ref": "#/definitions/target" + strconv.Itoa(n%3)}
 	case "pattern":
 		return jx.Obj{"type": "string", "pattern": "^simple" + strconv.Itoa(n) + "$"}
+	}
+	switch n % 5 {
+	case 1:
+		return jx.Obj{"type": "integer", "enum": jx.Arr{float64(0)}}
+	case 2:
+		return jx.Obj{"type": "string", "enum": jx.Arr{""}}
+	case 3:
+		return jx.Obj{"type": "boolean", "enum": jx.Arr{false}}
 	}
 	return jx.Obj{"type": "string", "enum": jx.Arr{"simple" + strconv.Itoa(n)}}
 }
